@@ -793,7 +793,10 @@ def parse_tree_to_objgraph(
         # Collect rules for textx-tools
         if inst is not None and metamodel.textx_tools_support:
             pos = (inst._tx_position, inst._tx_position_end)
-            pos_rule_dict[pos] = inst
+            # Children are finished before their containers: when nested
+            # objects share a span keep the innermost one.
+            if pos not in pos_rule_dict:
+                pos_rule_dict[pos] = inst
 
         return inst
 
